@@ -89,7 +89,7 @@ def bits(x: float) -> bytes:
 _CURRENT: list[Any] = [None]
 STAGES = ('correspondence-formulas', 'correspondence-dispatch', 'correspondence-angle-operand', 'correspondence-inverse',
           'correspondence-inplace-census', 'correspondence-rounding', 'correspondence-euler-float', 'search-operands',
-          'search-identities', 'search-composed', 'search-inplace')
+          'search-identities', 'search-composed', 'search-inplace', 'search-conversions')
 STAGE_SECONDS = 300
 STAGE_SECONDS_AFTER_HANG = 30
 
@@ -1115,6 +1115,84 @@ def search_inplace(ck: Ck, found: dict) -> None:
                         found[key] = (f'{name} with a {rc}: {desc}', {'kind': 'inplace-method', 'name': name, 'r': rc, 'left': vl, 'right': vr})
 
 
+# =============================================================================================== conversions / entry points
+# Round 4.  The glue around the anchored functions: copies, freeze / thaw, constructors from another object, pickling, the row
+# accessors, the string entry point, to_matrix().  A rotation (angle, vector) that goes through any of them must come out with
+# the same bits - otherwise every identity above silently speaks about a different object than the caller holds.
+def conversion_problems(vals: dict) -> list[tuple[str, str]]:
+    import copy
+    import pickle
+    import srctools.math as sm
+    from srctools.math import Angle, FrozenAngle, FrozenMatrix, FrozenVec, Matrix, Vec
+    _CURRENT[0] = {'kind': 'conversion', 'vals': vals}
+    out: list[tuple[str, str]] = []
+
+    def same(name: str, got: Any, want: tuple, cls: type | None = None) -> None:
+        try:
+            g = snapshot(got)
+        except Exception as e:      # noqa: BLE001
+            out.append((name, f'{name}: result {got!r} is not a vector / angle / matrix ({e})'))
+            return
+        if [bits(x) for x in g] != [bits(x) for x in want]:
+            out.append((name, f'{name}: {g} instead of {want}'))
+        elif cls is not None and type(got) is not cls:
+            out.append((name, f'{name}: result is a {type(got).__name__}, expected {cls.__name__}'))
+
+    p, y, r = vals['M']
+    for mc, oc in ((Matrix, FrozenMatrix), (FrozenMatrix, Matrix)):
+        nm = mc.__name__
+        M = mc.from_angle(p, y, r)
+        w = snapshot(M)
+        same(f'{nm}.copy', M.copy(), w, mc)
+        same(f'{nm}(matrix)', mc(M), w, mc)
+        same(f'{oc.__name__}({nm})', oc(M), w, oc)
+        same(f'copy.copy({nm})', copy.copy(M), w, mc)
+        same(f'copy.deepcopy({nm})', copy.deepcopy(M), w, mc)
+        same(f'pickle({nm})', pickle.loads(pickle.dumps(M)), w, mc)
+        same(f'{nm}.freeze/thaw', M.thaw() if mc is FrozenMatrix else M.freeze(), w, oc)
+        same(f'{nm}.forward/left/up', tuple(M.forward()) + tuple(M.left()) + tuple(M.up()), w)
+        same(f'{nm}.from_angle(Angle)', mc.from_angle(Angle(p, y, r)), snapshot(mc.from_angle(*snapshot(Angle(p, y, r)))), mc)
+        same(f'{nm}.from_angle(FrozenAngle)', mc.from_angle(FrozenAngle(p, y, r)), snapshot(mc.from_angle(*snapshot(Angle(p, y, r)))), mc)
+        same(f'to_matrix({nm})', sm.to_matrix(M), w)
+        a = Angle(p, y, r)
+        same(f'{nm}.from_angstr', mc.from_angstr(f'{a.pitch!r} {a.yaw!r} {a.roll!r}'), snapshot(mc.from_angle(a)), mc)
+        same(f'{nm}.to_angle', M.to_angle(), snapshot(M._to_angle(Angle.__new__(Angle))), Angle)
+    same('to_matrix(Angle)', sm.to_matrix(Angle(p, y, r)), snapshot(Matrix.from_angle(Angle(p, y, r))))
+    same('to_matrix(FrozenAngle)', sm.to_matrix(FrozenAngle(p, y, r)), snapshot(Matrix.from_angle(Angle(p, y, r))))
+    same('to_matrix(None)', sm.to_matrix(None), (1.0, 0.0, 0.0, 0.0, 1.0, 0.0, 0.0, 0.0, 1.0))
+    for ac, oc in ((Angle, FrozenAngle), (FrozenAngle, Angle)):
+        nm = ac.__name__
+        a = ac(*vals['A'])
+        w = snapshot(a)
+        same(f'{nm}.copy', a.copy(), w, ac)
+        same(f'{oc.__name__}({nm})', oc(a), w, oc)
+        same(f'copy.copy({nm})', copy.copy(a), w, ac)
+        same(f'pickle({nm})', pickle.loads(pickle.dumps(a)), w, ac)
+        same(f'{nm}.freeze/thaw', a.thaw() if ac is FrozenAngle else a.freeze(), w, oc)
+        same(f'{nm}.as_tuple', tuple(a.as_tuple()), w)
+    for vc, oc in ((Vec, FrozenVec), (FrozenVec, Vec)):
+        nm = vc.__name__
+        v = vc(*vals['V'])
+        w = snapshot(v)
+        same(f'{nm}.copy', v.copy(), w, vc)
+        same(f'{oc.__name__}({nm})', oc(v), w, oc)
+        same(f'copy.copy({nm})', copy.copy(v), w, vc)
+        same(f'pickle({nm})', pickle.loads(pickle.dumps(v)), w, vc)
+        same(f'{nm}.freeze/thaw', v.thaw() if vc is FrozenVec else v.freeze(), w, oc)
+    return out
+
+
+def search_conversions(ck: Ck, found: dict) -> None:
+    for _ in range(ck.budget(60, 1500)):
+        vals = rand_vals(ck.rng)
+        ck.count('conversion_cases')
+        ck.seen(('conv', vals['V'], vals['A'], vals['M']))
+        for name, desc in conversion_problems(vals):
+            key = f'conversion:{name}'
+            if key not in found:
+                found[key] = (desc, {'kind': 'conversion', 'vals': vals})
+
+
 # =============================================================================================== axioms
 def theorems_with_axioms(ck: Ck, props_file: str = 'Props/C04.v') -> None:
     """Same job as Ck.theorems (one `theorem:` obligation per theorem, axioms recorded), with a complete parser:
@@ -1543,6 +1621,7 @@ def run(ck: Ck) -> None:
     guarded(ck, found, 'search-identities', search_identities, ck, found)
     guarded(ck, found, 'search-composed', search_composed, ck, found)
     guarded(ck, found, 'search-inplace', search_inplace, ck, found)
+    guarded(ck, found, 'search-conversions', search_conversions, ck, found)
     for key, (what, rp) in sorted(found.items()):
         ck.violation(key, what, rp)
     keys = set(found)
@@ -1706,6 +1785,11 @@ def _replay(data: dict) -> int:
         e = euler_float_error(*r['angle'])
         print('Matrix.from_angle(M.to_angle()) vs the exact rotation for angle', r['angle'], ': error', e)
         return 1 if e > 2e-13 else 0
+    if r.get('kind') == 'conversion':
+        probs = conversion_problems({k: tuple(v) for k, v in r['vals'].items()})
+        print('conversions of', r['vals'])
+        print('problems  :', probs or 'none')
+        return 1 if probs else 0
     if r.get('kind') == 'stage':
         print('no single input was in flight; re-run the check to reproduce:', r)
         return 1
